@@ -4,7 +4,7 @@ def run(ctx):
     return standard(ctx,
         props=[("Props.C15", ["c15_roundtrip", "c15_sync_mirror", "c15_sync_completes", "c15_mirror_reads", "c15_atomic",
                               "c15_outage_reads", "c15_outage_writes", "c15_dead_frozen", "c15_cleanup_invisible",
-                              "c15_cleanup_purges", "c15_old_mirror_refuted", "c15_old_atomic_refuted_cursor",
+                              "c15_cleanup_purges", "c15_reads_unexpired", "c15_old_outage_reported_refuted", "c15_old_mirror_refuted", "c15_old_atomic_refuted_cursor",
                               "c15_old_atomic_refuted_eager", "c15_old_stale_writeback_refuted"])],
         harness=("TestVerif_C15", ["kmd/common.go", "kmd/creds.go", "kmd/faultdb.go", "kmd/vdevice.go", "kmd/storeenv.go", "kmd/c15.go"]),
         cases=("CasesC15.v", [("c15_history_mismatches", "storage histories with statement-level faults on real SQLite = model run (results of every op, both stores after every synchronisation)"),
@@ -12,7 +12,7 @@ def run(ctx):
                "CasesC15.idx"),
         trusted=["SQLite (mattn/go-sqlite3) transaction semantics: statements inside a transaction become durable together at COMMIT, a rolled-back transaction leaves the previous content — exercised with a fault at every statement, not proved",
                  "the wrapping database/sql driver (harness/kmd/faultdb.go) numbers Query/Exec/Prepare/Begin/Commit/rows.Next calls in program order; the model's statement list is compared with it through the fault index",
-                 "slow primary = remoteDBQueryTimeout 0 (as the project's own cache test), dead primary = closed *sql.DB; PostgreSQL is not available offline",
+                 "outages of the primary are simulated: hang = remoteDBQueryTimeout 0 (as the project's own cache test), closed pool = closed *sql.DB, fail-fast at prepare / query / row fetch = the wrapping driver failing every read of the primary file at that stage (with and without the other statements failing too) under a 20 ms read deadline; PostgreSQL is not available offline",
                  "software U2F token (harness/kmd/vdevice.go) for registrations and WebAuthn assertions"],
         assumptions=["the source tables are read as one snapshot each (no concurrent writer during a copy)",
                      "expiry decisions compare with the harness's clock reading; generated expiries stay >= 15 min away from now except in the one scenario aligned to the second"],
